@@ -733,7 +733,15 @@ def run(ctx):
                        "insert_or_assign, try_emplace, operator[], erase, find/contains/count/at, merge, merge_or_update, range insert with duplicate "
                        "keys, push_back, insert, erase, resize, clear, iteration) compared step by step, and slot by slot at the end, with the Lean "
                        "map/sequence model (so aliasing between copies shows); all ordered pairs from a catalogue of every storage kind and tag plus "
-                       "int64/uint64 boundary pairs for the relational laws; is<T>/as<T> on every integer width boundary. "
+                       "int64/uint64 boundary pairs for the relational laws; is<T>/as<T> on every integer width boundary; "
+                       "the whole of compare() and the six operators against JV.Model.Compare.compare (dom mcmp: explicit storage kinds) on all ordered "
+                       "pairs of a 165-value boundary alphabet (every kind, integers at +-2^53, +-2^63, 2^64-1 and their neighbours, the doubles equal / "
+                       "adjacent to them, +-0, subnormals, +-inf, NaNs, halves, strings at the 13/14-byte short/long boundary differing at the first / last "
+                       "byte and in length, byte strings, arrays and objects differing at the first / last position and in length), on generated nestings "
+                       "with one-position mutations and on random integers beside the doubles they round to; the relational laws (reflexive, antisymmetric, "
+                       "== transitive, < transitive, == congruent for <, incomparability transitive) on ALL triples of the alphabet's real results: "
+                       "a failing triple inside the Lean theorems' domain (JV.Props.C09 dom) is a violation, outside it is counted under its documented "
+                       "class X1..X5. "
                        "non-trivial = sequences / pairs longer than 30 characters; distinct by line")
     rng = vlib.rng_for(ctx.seed, "c09")
     streams(ctx, rng, 1 if ctx.tier == "quick" else 10)
